@@ -206,6 +206,29 @@ def effective_transport(op):
     return "mosek"
 
 
+def failing_solve(rng, P, out, peer_mode="tagged"):
+    """A solve of the same PEP object that fails: scripted solver failure, Ctrl-C at some line, stream error."""
+    f = draw_solve(rng, P, out, peer_mode=peer_mode if peer_mode == "tagged" else "tagged")
+    kind = rng.choice(["script", "script", "interrupt", "interrupt", "stdout"])
+    if kind == "script":
+        f["peer"]["script"] = {"1": rng.choice([{"action": "raise"}, {"action": "status", "status": "infeasible"},
+                                                {"action": "status", "status": "unbounded"},
+                                                {"action": "status", "status": "unbounded_inaccurate"}])}
+    elif kind == "interrupt":
+        if rng.random() < 0.5:
+            f["faults"] = {"interrupt": {"at": int(10 ** rng.uniform(0, 3.9))}}
+        else:
+            f["faults"] = {"interrupt": {"at": int(10 ** rng.uniform(0, 2.3)), "fn": rng.choice(
+                ["add_class_constraints", "_solve_with_wrapper", "_eval_points_and_function_values",
+                 "check_feasibility", "send_constraint_to_solver", "send_lmi_constraint_to_solver",
+                 "add_partition_constraints", "assign_dual_values", "_recover_dual_values", "generate_problem"])}}
+    else:
+        f["cfg"]["verbose"] = rng.choice([1, 2])
+        f["faults"] = {"stdout": {"at": rng.randrange(1, 60), "errno": rng.choice(["EPIPE", "ENOSPC"])}}
+    f["nojudge"] = True
+    return f
+
+
 def edit_ops(rng, b, s, bias=None):
     """Edits of the model between two solves (all keep it bounded and feasible)."""
     ops = []
@@ -274,7 +297,7 @@ def edit_ops(rng, b, s, bias=None):
 
 
 def gen_session(rng, tier, peer_mode=None, nsolves=None, allow_mosek=True, allow_heuristic=False, weights=None,
-                decorations=None, evals=True, class_duals=False, template=None, allow_decor=None, n=None, edits=True, edit_bias=None):
+                decorations=None, evals=True, class_duals=False, template=None, allow_decor=None, n=None, edits=True, edit_bias=None, faults=True):
     b = templates.build_model(rng, template=template, weights=weights, decorations=decorations,
                               allow_decor=allow_decor, n=n)
     ops = list(b.ops)
@@ -283,6 +306,8 @@ def gen_session(rng, tier, peer_mode=None, nsolves=None, allow_mosek=True, allow
     for s in range(nsolves):
         if s > 0 and edits and rng.random() < (0.9 if edit_bias else 0.6):
             ops += edit_ops(rng, b, s, bias=edit_bias)
+        if faults and (s > 0 or rng.random() < 0.5) and rng.random() < 0.25:
+            ops.append(failing_solve(rng, b.P, "fail%d" % s, peer_mode))
         ops.append(draw_solve(rng, b.P, "tau%d" % s, peer_mode=peer_mode, allow_mosek=allow_mosek,
                               allow_heuristic=allow_heuristic))
         if class_duals:
